@@ -21,7 +21,7 @@ RULE = ("Hypothesis systems (orders 0..3 with repeated reactants, environment-sp
         "strictly increases; the run stops exactly when the total reference propensity is zero or t > t_max. "
         "gillespie_rates: sum_k a0(x_k)(t_k+1 - t_k) against Gamma(N,1), and for every event class C (net "
         "change vector of a reaction, or species for diffusion) sum_k (1[event in C] - a_C/a0) against its "
-        "martingale variance. combinatorial: n A (+B) -> P from n..n+6 molecules per cell over 150 seeds: waiting times (Gillespie) and one-step firing counts (tau-leap) against k V^(1-n) x(x-1)..(x-n+1). tauleap_rates: for linear functionals w of the state, increments minus dt sum_c "
+        "martingale variance. combinatorial: n A (+B) -> P from n..n+6 molecules per cell over 150 seeds: waiting times (Gillespie) and one-step firing counts (tau-leap) against k V^(1-n) x(x-1)..(x-n+1). tauleap_chemostat_diffusion: the same increments test on pure-diffusion systems with a chemostat map. tauleap_rates: for linear functionals w of the state, increments minus dt sum_c "
         "(w.v_c) a_c(x_k) tested for mean and Poisson dispersion. |z| < 7. Non-trivial: >= 200 steps with >= "
         "3 event classes fired (legality); every (run, class) test with expected count >= 100 (rates).")
 ASSUMPTIONS = ["reference propensities from vlib/ratelaw.py (falling factorials x k V^(1-n); first-order diffusion constants)",
@@ -70,11 +70,11 @@ class Channels:
 
 
 @st.composite
-def sys_case(draw, stats=False, low=False):
+def sys_case(draw, stats=False, low=False, chem_diffusion=False):
     spec = draw(gen.system_spec(variety="default", max_species=3, max_reactions=3, max_order=3, max_cells=6 if stats else 8,
-                                max_axis=3, chemostats="mixed" if not stats else "none",   # a chemostated reactant breaks mass balance (unbounded growth)
+                                max_axis=3, chemostats="mixed" if not stats else ("map" if chem_diffusion else "none"),   # a chemostated reactant breaks mass balance (unbounded growth); pure diffusion is safe
                                 state="explicit", count_exp=(1, 2) if not stats else ((0, 1) if low else (2, 3)), rate_exp=(-1, 0), simple_graph=stats,
-                                min_reactions=0 if not stats else 1))
+                                min_reactions=0 if (not stats or chem_diffusion) else 1, max_reactions_override=0 if chem_diffusion else None))
     if stats:
         # avoid periodic axes of length 1 (self-directed channels are null events)
         sp = spec["space"]
@@ -257,6 +257,12 @@ def strat_trates(ctx):
     return st.fixed_dictionaries({"case": sys_case(True), "steps": st.sampled_from([500, 1000])})
 
 
+def strat_tchem(ctx):
+    # pure diffusion with a chemostat map: chemostated cells are sources and sinks, arrivals and departures of
+    # their unflagged neighbours must still follow the first-order diffusion propensities
+    return st.fixed_dictionaries({"case": sys_case(True, chem_diffusion=True), "steps": st.sampled_from([500, 1000])})
+
+
 def check_trates(ctx, cc):
     c = cc["case"]
     spec = c["sys"]
@@ -417,5 +423,6 @@ FACETS = [
     Facet("legality", check_legal, strategy=strat_legal, examples=(640, 12000), shards=(16, 16), setup=sim.setup_plain, native=True, shrink=False),
     Facet("gillespie_rates", check_grates, strategy=strat_grates, examples=(320, 6400), shards=(16, 16), setup=sim.setup_plain, native=True, shrink=False),
     Facet("combinatorial", check_comb, strategy=strat_comb, examples=(96, 2400), shards=(16, 16), setup=sim.setup_plain, native=True, shrink=False),
+    Facet("tauleap_chemostat_diffusion", check_trates, strategy=strat_tchem, examples=(320, 4800), shards=(8, 16), setup=sim.setup_plain, native=True, shrink=False),
     Facet("tauleap_rates", check_trates, strategy=strat_trates, examples=(640, 9600), shards=(16, 16), setup=sim.setup_plain, native=True, shrink=False),
 ]
